@@ -904,7 +904,31 @@ class Executor:
                 f = finder(self.cfg.fns, callee, args) if callable(finder) else find_fn(self.cfg.fns, finder)
                 if f is not None:
                     return f
-        return None
+        return self.auto_inline_target(callee, args)
+
+    def auto_inline_target(self, callee, args):
+        """helper functions that did not exist when the obligations were written (not in mirsym/baseline_fns.txt) are
+        executed inline instead of being treated as opaque events, so that moving code into a new private helper
+        does not hide the events the obligations are about"""
+        base = BASELINE_FNS()
+        if not base:
+            return None
+        m = re.search(r"([A-Za-z_][A-Za-z0-9_]*)(::<[^:]*>)?$", callee)
+        if not m or callee.startswith("<") and " as " in callee.split(">::")[0] and "dyn " in callee:
+            return None
+        name = m.group(1)
+        idx = getattr(self.cfg, "_by_last", None)
+        if idx is None:
+            idx = {}
+            for f in self.cfg.fns.values():
+                if "{closure" in f.name:
+                    continue
+                idx.setdefault(f.name.rsplit("::", 1)[-1], []).append(f)
+            self.cfg._by_last = idx
+        cands = [f for f in idx.get(name, []) if f.short() not in base and len(f.params) == len(args)]
+        if len(cands) != 1:
+            return None
+        return cands[0]
 
     def call_closure(self, st, clos, cargs, dty):
         """call a closure value with a tuple of args; returns [(state, value)] (may fork)"""
@@ -1022,6 +1046,17 @@ def loop_heads(fn):
             stack.append((nxt, iter(successors(fn.blocks[nxt]))))
     fn._heads = heads
     return heads
+
+
+_baseline = {}
+
+
+def BASELINE_FNS():
+    if "v" not in _baseline:
+        import os
+        pth = os.path.join(os.path.dirname(os.path.abspath(__file__)), "baseline_fns.txt")
+        _baseline["v"] = set(l.strip() for l in open(pth)) if os.path.exists(pth) else set()
+    return _baseline["v"]
 
 
 def find_fn(fns, rx):
